@@ -485,7 +485,11 @@ BOX_OPTIONAL = ["spn", "uhu", "uiu", "siu", "shu", "amn", "eig"]
 box_st = st.fixed_dictionaries(dict(lat=wbsys.lattice_st(kinds=BK_LATTICES), mp=st.sampled_from(MP_GRIDS[:9]),
                                     NB=st.integers(1, 4), NWr=st.sampled_from(range(4)), vals=_vals, rs=_rs, sparse=st.booleans(),
                                     files=st.lists(st.sampled_from(BOX_OPTIONAL), unique=True, max_size=5),
-                                    chk_v=st.booleans())).filter(_bk_ok)
+                                    chk_v=st.booleans(),
+                                    # an irreducible container that is already wannierised: v_matrix for ALL k-points
+                                    chk_full=st.booleans(),
+                                    # order in which the files are loaded (None = the loader's default list)
+                                    load_order=st.sampled_from(["sorted", "reversed", "chk-last", "default"]))).filter(_bk_ok)
 
 
 def check_box(case):
@@ -507,7 +511,7 @@ def check_box(case):
     chk_kw = dict(real_lattice=wbsys.lattice_matrix(case["lat"]), num_wann=NW, num_bands=NB, num_kpts=NK, kpt_red=kpts,
                   mp_grid=np.array(mp))
     if case["chk_v"]:
-        chk_kw["v_matrix"] = kd((NB, NW))
+        chk_kw["v_matrix"] = ({ik: values(rng, (NB, NW), mode) for ik in range(NK)} if case.get("chk_full") else kd((NB, NW)))
         chk_kw["wannier_centers_cart"] = rng.uniform(-2, 2, (NW, 3))
     files = {"chk": CheckPoint(**chk_kw), "bkvec": bkvec, "mmn": W.MMN(data=kd((NNB, NB, NB)), NK=NK)}
     shapes = dict(spn=(NB, NB, 3), uhu=(NNB, NNB, NB, NB), uiu=(NNB, NNB, NB, NB), siu=(NNB, NB, NB, 3),
@@ -526,7 +530,13 @@ def check_box(case):
     with scratch_dir() as d:
         seed = os.path.join(d, "sub", "w90")
         box.to_npz(seed)
-        box2 = WannierData.from_npz(seed, files=list(names), ignore_missing_files=False)
+        order = case.get("load_order", "sorted")
+        if order == "default":
+            box2 = WannierData.from_npz(seed)          # default file list, missing files are skipped
+        else:
+            lst = list(names) if order == "sorted" else list(names)[::-1] if order == "reversed" else \
+                [n for n in names if n != "chk"] + ["chk"]
+            box2 = WannierData.from_npz(seed, files=lst, ignore_missing_files=False)
         back_text = {}
         if text:
             tseed = os.path.join(d, "txt")
